@@ -17,15 +17,15 @@ import (
 )
 
 type modInfo struct {
-	direct map[*ssa.Function]map[string]bool
-	all    map[*ssa.Function]bool // may write anything (reflection, unsafe, unknown dynamic calls)
-	closed map[*ssa.Function]map[string]bool
+	direct    map[*ssa.Function]map[string]bool
+	all       map[*ssa.Function]bool // may write anything (reflection, unsafe, unknown dynamic calls)
+	closed    map[*ssa.Function]map[string]bool
 	closedAll map[*ssa.Function]bool
-	graph  *effGraph
-	namer  *VC
-	names  []string
-	bits   map[*ssa.Function][]uint64
-	allBits map[*ssa.Function]bool
+	graph     *effGraph
+	namer     *VC
+	names     []string
+	bits      map[*ssa.Function][]uint64
+	allBits   map[*ssa.Function]bool
 }
 
 func (c *Ctx) modsets() *modInfo {
